@@ -75,6 +75,10 @@ B. LIBRARY SIDE — quantem is imported lazily inside the functions.
                                   ndarrays, torch.autograd.grad on the public forward chain (call
                                   set_loss_type(lt) first so that the targets match)
         lib_geometry()            dict: obj_shape [S,H,W], obj_padding_px, positions_px, patch_indices, sampling
+        wrap(other_ptycho)        the same problem (configuration, truth, data) addressed at another Ptychography instance
+                                  (clone, re-loaded copy): predict / loss / set_* then act on that instance
+        fresh_dataset()           a new, identically preprocessed PtychographyDatasetRaster on the same intensities
+        (build(..., data_file=path) makes the dataset FILE-BACKED: Dataset4dstem.save -> load -> public file_path setter)
         lib_placement(idx=None)   dict from ONE dset.forward call: positions_px, origin_mod (patch origin modulo
                                   the object shape, read from patch_indices[:,0,0]), frac (shift given to the probe),
                                   obj_shape -- consistency means (origin_mod + frac - position) = 0 modulo the shape
@@ -524,6 +528,29 @@ class Problem(types.SimpleNamespace):
         gp = np.concatenate([np.ravel(x) for x in gs[len(po) :]])
         return float(l), go, gp
 
+    def wrap(self, other_ptycho):
+        """A Problem with the same configuration / ground truth / data whose live objects are those of ANOTHER Ptychography
+        instance (a clone, a re-loaded copy, ...), so that predict / loss / set_* address that instance."""
+        q = Problem(**vars(self))
+        q.ptycho = other_ptycho
+        q.dset, q.obj_model, q.probe_model, q.detector_model = other_ptycho.dset, other_ptycho.obj_model, other_ptycho.probe_model, other_ptycho.detector_model
+        return q
+
+    def fresh_dataset(self):
+        """A new PtychographyDatasetRaster built from the same intensities and preprocessed exactly like the one of build()."""
+        from quantem.core.datastructures.dataset4dstem import Dataset4dstem
+        from quantem.diffractive_imaging.dataset_models import PtychographyDatasetRaster
+
+        c, geo = self.cfg, self.geo
+        R, C = geo.roi
+        ds = Dataset4dstem.from_array(
+            self.intensities.reshape(geo.scan[0], geo.scan[1], R, C).astype(np.float32),
+            sampling=(geo.step[0], geo.step[1], geo.dq[0], geo.dq[1]), units=("A", "A", "A^-1", "A^-1"))
+        d = PtychographyDatasetRaster.from_dataset4dstem(ds, verbose=0, learn_descan=bool(c["learn_descan"]), learn_scan_positions=bool(c["learn_scan_positions"]))
+        d.preprocess(com_fit_function=c["descan"], force_com_rotation=0, force_com_transpose=False, plot_rotation=False, plot_com=False,
+                     probe_energy=c["energy"], obj_padding_px=tuple(int(v) for v in self.ptycho.obj_padding_px))
+        return d
+
     def lib_placement(self, idx=None):
         """How one forward pass places every probe: dict with positions_px (batch,2), origin_mod (batch,2) = patch
         origin modulo the object shape (read from patch_indices[:, 0, 0]), frac (batch,2) = the fractional shift
@@ -554,7 +581,7 @@ class Problem(types.SimpleNamespace):
         }
 
 
-def build(cfg: dict, rng, obj_init=None, probe_init=None, sim=None) -> Problem:
+def build(cfg: dict, rng, obj_init=None, probe_init=None, sim=None, data_file=None) -> Problem:
     """Build one problem (see module docstring). `rng` is a numpy Generator owned by the caller."""
     c = normalise(cfg)
     geo = geometry(c)
@@ -581,6 +608,14 @@ def build(cfg: dict, rng, obj_init=None, probe_init=None, sim=None) -> Problem:
         sampling=(geo.step[0], geo.step[1], geo.dq[0], geo.dq[1]),
         units=("A", "A", "A^-1", "A^-1"),
     )
+    if data_file is not None:
+        # file-backed dataset through the library's own writer/reader: Dataset4dstem.save -> load -> public file_path setter
+        from quantem.core.io.serialize import load as _load
+
+        ds.save(str(data_file), mode="o")
+        ds = _load(str(data_file))
+        ds.file_path = str(data_file)
+        P.data_file = str(data_file)
     dset = PtychographyDatasetRaster.from_dataset4dstem(ds, verbose=0, learn_descan=bool(c["learn_descan"]), learn_scan_positions=bool(c["learn_scan_positions"]))
     dset.preprocess(
         com_fit_function=c["descan"],
